@@ -8,7 +8,7 @@ echo >> $out
 echo '| seed | check | exit | VIOLATION lines |' >> $out
 echo '|---|---|---|---|' >> $out
 for d in $(ls -d seeded/C*-* | sort -V); do
-  n=$(basename $d); id=${n%%-*}
+  n=$(basename $d); id=${n%%-*}; [ -f $d/SUPERSEDED ] && continue
   extra=""
   case $n in C09-6) extra="C03";; C04-2) extra="C01";; esac
   for c in $id $extra; do
